@@ -44,7 +44,8 @@ def make(inp):
     nk = SIZES['k']
     positive, order = inp['positive'], inp['order']
     # physical depth (positive down) by rank, shallow -> deep
-    depth_by_rank = numpy.array([0.5, 2.0, 5.0, 11.0])
+    # physical depth (positive down) by rank; 'tidal' axes start above the datum, 'sentinel' axes carry a huge top face
+    depth_by_rank = numpy.array({'tidal': [-2.5, -1.0, 0.0, 1.5], 'sentinel': [-1e35, 1.0, 3.0, 6.0]}.get(inp.get('axis'), [0.5, 2.0, 5.0, 11.0]))
     ranks = numpy.arange(nk) if order == 'shallow-to-deep' else numpy.arange(nk)[::-1]     # rank of stored layer k
     z = depth_by_rank[ranks] * (1 if str(positive).lower() in ('down', 'none') else -1)
     attrs = {'long_name': 'depth'}
@@ -105,6 +106,9 @@ def gen(tier, seed):
         if tier == 'quick' and shape == 'random' and lay not in LAYOUTS[:2]:
             continue
         yield {'positive': positive, 'order': order, 'vars': base_vars(lay), 'shape': shape, 'seed': seed, 'nonspatial': 't' in lay}
+    for axis, positive, order, shape in itertools.product(('tidal', 'sentinel'), ('up', 'down'), ('shallow-to-deep', 'deep-to-shallow'), ('stairs', 'gaps')):
+        # depth axes whose surface end is further from zero than their deep end (layers above the datum)
+        yield {'positive': positive, 'order': order, 'vars': base_vars(LAYOUTS[0]), 'shape': shape, 'seed': seed, 'nonspatial': True, 'axis': axis}
     for order, shape in itertools.product(('shallow-to-deep', 'deep-to-shallow'), shapes):
         yield {'positive': 'down', 'order': order, 'vars': base_vars(LAYOUTS[0]), 'shape': shape, 'seed': seed, 'second': True, 'nonspatial': True}
         yield {'positive': 'up', 'order': order, 'vars': base_vars(LAYOUTS[0]), 'shape': shape, 'seed': seed, 'zname': 'k', 'nonspatial': True}
